@@ -8,7 +8,8 @@ EXPLANATION = ("C13: (R1) both interning tables have the entry/or_insert(count)/
                "writer, the cache is rebuilt or patched on every path (R2b: the joining rule itself over all 16 predicate "
                "combinations); (R3) serialisation writes raw names + root; (R4) the builder hands file, tokens, names, raw "
                "sources, contents, root, debug id and ignore list to the map on every path; (R5) contents vectors are grown "
-               "before the indexed write and add_with_id stores the interned ids.")
+               "before the indexed write and add_with_id stores the interned ids."
+               " (R7) SourceMapBuilder::new and (R7b) SourceMap::new store their arguments whole.")
 NOT_DECIDED = "full model equivalence over arbitrary call sequences (value-level)."
 
 
